@@ -471,10 +471,10 @@ def shard_run(arg):
 
 def run(tier, seed, work):
     res = vp.Result("C01", tier, seed, "exploration")
-    maxlen = 3 if tier == "quick" else 4
+    maxlen = 3 if tier == "quick" else 5
     hs = list(enumerate(enum_histories(maxlen)))
     r = vp.rng(seed, "c01-len")
-    nrand = 500 if tier == "quick" else 5000
+    nrand = 1500 if tier == "quick" else 8000
     rnd = [(i, r.randint(8, 30 if tier == "quick" else 60)) for i in range(nrand)]
     shards = [("enum", s, seed, work) for s in vp.split(hs, vp.NCPU * 2)] + [("rand", s, seed, work) for s in vp.split(rnd, vp.NCPU)]
     for d in vp.pmap(shard_run, shards):
